@@ -41,6 +41,9 @@ def required_cells(tier):
     req["pose:original-after-sibling-moved"] = 50 if q else 1000
     req["pose:endpoints-assigned"] = 20 if q else 400
     req["pose:constructor-arguments-moved-afterwards"] = 50 if q else 1000
+    req["pose:base-or-faces-moved-into-place"] = 100 if q else 2000
+    req["body:minus1-minus2-slab"] = 30 if q else 600
+    req["history:hash-alike-twin-measured-first"] = 30 if q else 600
     req["perm:exhaustive-polygon"] = 100
     req["orient:exhaustive-polyhedron"] = 100
     return req
@@ -84,9 +87,32 @@ def cases(rng, budget, widx, nworkers, tier):
                 continue
             if nt == "int" and not (_integral(d) and _integral(("P", apex))):
                 nt = "float"
-            yield {"k": "PY", "d": d, "apex": apex, "nt": nt}
+            c_ = {"k": "PY", "d": d, "apex": apex, "nt": nt}
+            if rng.random() < 0.3:
+                c_["premove"] = [rng.randint(-6, 6) for _ in range(3)]
+            yield c_
         else:
             d = gen.rand_polyhedron(rng, small=rng.random() < 0.3)
+            if rng.random() < 0.14:
+                d = gen.slab_body(rng, wide=rng.random() < 0.3)[1]       # parallel faces at a coordinate -1 and -2 (hash alike)
+                if rng.random() < 0.5:
+                    # ... or a pair of bodies / polygons differing in one coordinate -1 against -2: the first is measured first
+                    kk = rng.choice(("PG", "PH"))
+                    t1, t2 = gen.slab_twins(rng, kk)
+                    if rng.random() < 0.5:
+                        t1, t2 = t2, t1
+                    if kk == "PG":
+                        yield {"k": "PG", "d": t2, "nt": nt if nt != "int" else "float", "order": list(range(len(t2[1]))), "twin": t1}
+                        continue
+                    d = t2
+                    nf = len(d[2])
+                    yield {"k": "PH", "d": d, "nt": nt, "forder": list(range(nf)), "flips": 0, "rots": [0] * nf, "twin": t1, "slab": True}
+                    continue
+                nf = len(d[2])
+                fo = list(range(nf))
+                rng.shuffle(fo)
+                yield {"k": "PH", "d": d, "nt": nt, "forder": fo, "flips": rng.getrandbits(nf), "rots": [rng.randrange(6) for _ in range(nf)], "slab": True}
+                continue
             if len(d[1]) > 10 or max(len(f) for f in d[2]) > 6:
                 continue
             if rng.random() < 0.12:
@@ -121,6 +147,8 @@ def _with_move(case, rng):
                       "w": [rng.randint(-5, 5) or 1 for _ in range(3)]}
     elif r < 0.3:
         case["argmove"] = [rng.randint(-5, 5) or 2 for _ in range(3)]
+    elif r < 0.38 and case["k"] == "PH":
+        case["premove"] = [rng.randint(-6, 6) for _ in range(3)]
     return case
 
 
@@ -145,7 +173,17 @@ def _moved(G, build, mv, nt):
     return ret if mv["use"] == "returned" else o
 
 
-def build_polygon(G, vs, order, nt, argmove=None):
+def build_polygon(G, vs, order, nt, argmove=None, premove=None):
+    if premove:
+        # built elsewhere, measured there, then moved into place: the moved receiver itself is what is used
+        v = tuple(F(c) for c in premove)
+        pg = build_polygon(G, [K.sub(p, v) for p in vs], order, nt)
+        try:
+            pg.area(), pg.length()
+        except Exception:
+            pass
+        pg.move(G.Vector(*[num(c, nt) for c in v]))
+        return pg
     pts = tuple(G.Point(num(vs[i][0], nt), num(vs[i][1], nt), num(vs[i][2], nt)) for i in order)
     pg = G.ConvexPolygon(pts)
     if argmove:
@@ -155,7 +193,7 @@ def build_polygon(G, vs, order, nt, argmove=None):
     return pg
 
 
-def build_polyhedron(G, faces, forder, flips, rots, nt, argmove=None):
+def build_polyhedron(G, faces, forder, flips, rots, nt, argmove=None, premove=None):
     polys = []
     for j, fi in enumerate(forder):
         f = list(faces[fi])
@@ -163,6 +201,9 @@ def build_polyhedron(G, faces, forder, flips, rots, nt, argmove=None):
         f = f[r:] + f[:r]
         if (flips >> j) & 1:
             f.reverse()
+        if premove and j % 2 == 0:
+            polys.append(build_polygon(G, f, list(range(len(f))), nt, premove=premove))       # every other face arrives by an in-place move
+            continue
         polys.append(G.ConvexPolygon(tuple(G.Point(num(v[0], nt), num(v[1], nt), num(v[2], nt)) for v in f)))
     ph = G.ConvexPolyhedron(tuple(polys))
     if argmove:
@@ -181,6 +222,21 @@ def _cmp(mu, what, got, want, key):
         _diag["max_rel_error"] = err
     if err > 1e-9:
         mu.fail(key + ":wrong-value", "%s = %r, exact %r (rel err %.3g)" % (what, got, want, err))
+
+
+def _measure_twin(G, t, nt, mu):
+    """an object that differs from the judged one only in a coordinate -1 against -2 is built and measured first"""
+    mu.cell("history:hash-alike-twin-measured-first")
+    try:
+        if t[0] == "PG":
+            o = build_polygon(G, t[1], list(range(len(t[1]))), nt)
+            o.area(), o.length()
+        else:
+            nf = len(t[2])
+            o = build_polyhedron(G, t[2], list(range(nf)), 0, [0] * nf, nt)
+            o.area(), o.volume(), o.length(), G.volume(o)
+    except Exception:
+        pass
 
 
 def judge(case):
@@ -221,7 +277,11 @@ def judge(case):
             mu.cell("pose:via-move", "pose:" + case["mv"]["use"])
             pg = _moved(G, lambda sh: build_polygon(G, [K.add(v, sh) for v in vs], order, nt), case["mv"], nt)
         else:
-            pg = build_polygon(G, vs, order, nt, case.get("argmove") if k == "PG" else None)
+            if case.get("twin"):
+                _measure_twin(G, case["twin"], nt, mu)
+            pg = build_polygon(G, vs, order, nt, case.get("argmove") if k == "PG" else None, premove=case.get("premove"))
+            if case.get("premove"):
+                mu.cell("pose:base-or-faces-moved-into-place")
             if case.get("argmove") and k == "PG":
                 mu.cell("pose:constructor-arguments-moved-afterwards")
         area = K.polygon_area(vs)
@@ -259,7 +319,13 @@ def judge(case):
         mu.cell("pose:via-move", "pose:" + case["mv"]["use"])
         ph = _moved(G, lambda sh: build_polyhedron(G, [[K.add(v, sh) for v in f] for f in d[2]], case["forder"], case["flips"], case["rots"], nt), case["mv"], nt)
     else:
-        ph = build_polyhedron(G, d[2], case["forder"], case["flips"], case["rots"], nt, case.get("argmove"))
+        if case.get("slab"):
+            mu.cell("body:minus1-minus2-slab")
+        if case.get("twin"):
+            _measure_twin(G, case["twin"], nt, mu)
+        ph = build_polyhedron(G, d[2], case["forder"], case["flips"], case["rots"], nt, case.get("argmove"), premove=case.get("premove"))
+        if case.get("premove"):
+            mu.cell("pose:base-or-faces-moved-into-place")
         if case.get("argmove"):
             mu.cell("pose:constructor-arguments-moved-afterwards")
     want = {"length": K.polyhedron_length(d), "area": K.polyhedron_area(d), "volume": float(K.polyhedron_volume(d))}
@@ -288,4 +354,4 @@ def worker_report():
 
 
 def describe(case):
-    return {k: (C.show_short(v, 200) if k in ("d", "apex") else v) for k, v in case.items()}
+    return {k: (C.show_short(v, 200) if k in ("d", "apex", "twin") else v) for k, v in case.items()}
